@@ -122,3 +122,43 @@ def soft_iters(expect, r):
     if expect["outcome"] == "ok" and r.get("outcome") == "ok":
         return (expect["res"][4], expect["res"][5]) == (r["itreach"], r["itrew"])
     return True
+
+
+# ------------------------------------------------------------------------------------------
+# dynamically typed descriptions (C09 / C12)
+# ------------------------------------------------------------------------------------------
+def to_pyval(x):
+    if x is None:
+        return {"t": "none"}
+    if isinstance(x, bool):
+        return {"t": "bool", "v": x}
+    if isinstance(x, int):
+        return {"t": "int", "v": x}
+    if isinstance(x, float):
+        return {"t": "float", "v": fbits(x)}
+    if isinstance(x, str):
+        return {"t": "str", "v": x}
+    if isinstance(x, tuple):
+        return {"t": "tuple", "v": [to_pyval(y) for y in x]}
+    if isinstance(x, list):
+        return {"t": "list", "v": [to_pyval(y) for y in x]}
+    if isinstance(x, dict):
+        return {"t": "dict", "v": len(x)}
+    raise TypeError(type(x))
+
+
+def pygame_payload(g):
+    """game in the domain of C09: rewards numbers, players strings, finals ints, transition list
+    entries arbitrary values"""
+    return {"rewards": [to_pyval(r) for r in g["rewards"]], "players": list(g["players"]),
+            "tl": [to_pyval(v) for v in g["transition_list"]], "finals": list(g["final_states"])}
+
+
+def in_c09_domain(g):
+    try:
+        return (isinstance(g["rewards"], list) and all(isinstance(r, (int, float)) and r == r for r in g["rewards"])
+                and isinstance(g["players"], list) and all(isinstance(p, str) for p in g["players"])
+                and isinstance(g["final_states"], list) and all(isinstance(f, int) and not isinstance(f, bool) for f in g["final_states"])
+                and isinstance(g["transition_list"], list))
+    except Exception:  # noqa
+        return False
